@@ -95,6 +95,17 @@ def string_literal_of(n):
     return None
 
 
+# fallback vocabulary (used only when the spec maps nothing): semantics-preserving C spellings, so that a change that
+# swaps one classification function for another is decided instead of ending as "call not mapped" (exit 2)
+STD_CALLS = [
+    (r'^isnan\|bool \((const )?(double|float)\)', 'NV_ISNAN({0})'),
+    (r'^isinf\|bool \((const )?(double|float)\)', 'NV_ISINF({0})'),
+    (r'^isfinite\|bool \((const )?(double|float)\)', 'NV_FINITE({0})'),
+    (r'^signbit\|bool \((const )?(double|float)\)', '__CPROVER_signd({0})'),
+    (r'^memcpy\|void \*\(void \*', 'memcpy((void*)({0}), (const void*)({1}), {2})'),
+]
+
+
 class Printer:
     def __init__(self, cname, types=(), calls=(), members=(), hooks=(), self_struct=None, aggregates=(),
                  stmt_hooks=(), uf_float=True, opaque=(), dtors=()):
@@ -628,6 +639,8 @@ class Printer:
         lit = string_literal_of(inner[1]) if len(inner) > 1 else None
         key = f'{rd["name"]}|{rd["type"]["qualType"]}|{a0}' + (f'|"{lit}"' if lit is not None else '') + f'|#{len(inner) - 1}'
         m = self.lookup(self.calls, key)
+        if m is None and not self.any_opaque_operand(inner[1:]):
+            m = self.lookup(STD_CALLS, key)     # exact C equivalents of a few libc / libm classification functions
         if m is None:
             if self.any_opaque_operand(inner[1:]):
                 return self.havoc_value(n, f'call {rd["name"]} on erased numerics')
